@@ -102,7 +102,7 @@ func c19(tier string) []*explore.Scenario {
 	for _, cp := range []int{0, 1, 2} {
 		out = append(out, c19Channel(cp, bound))
 	}
-	out = append(out, c19ChannelCtx(), c19HTTPShapes(), c19HTTPDuplex(), c19HTTPCtx(), c19HTTPWriteCtx())
+	out = append(out, c19ChannelCtx(), c19HTTPShapes(), c19HTTPDuplex(), c19HTTPCtx(), c19HTTPWriteCtx(), c19HTTPRaw())
 	for _, pending := range []string{"sender", "reader", "both", "none"} {
 		out = append(out, c19HTTPIdle(pending, bound))
 	}
@@ -373,6 +373,87 @@ func c19HTTPCtx() *explore.Scenario {
 			if !done || err == nil {
 				vsched.Fail(fam+"|read-ignores-ctx", "a Read blocked on the HTTP transport did not return after its context was cancelled (server Stop and caller cancellation depend on it); threads: %s", threadList())
 			}
+			goh.Cancel()
+			vsched.Quiesce()
+		},
+	}
+}
+
+// c19HTTPRaw: raw request bodies - every byte string of length <= 2 and every
+// single-byte substitution (4 values) at every position of three valid
+// encodings - against the reference decoder: a body is answered 400 and never
+// delivered iff it does not decode, has no header or no source; otherwise it is
+// delivered equal to the reference decoding.
+func c19HTTPRaw() *explore.Scenario {
+	fam := "C19/http"
+	return &explore.Scenario{
+		Name: "C19/http/raw-bodies", Family: fam, Prop: "C19", Once: true, MaxSteps: 40000000,
+		Run: func() {
+			got := map[string][]*env.Rpc{}
+			goh := goat.NewGoatOverHttp(func(id string, rw goat.RpcReadWriter) {
+				vsched.GoNamed("reader-"+id, func() {
+					for {
+						r, err := rw.Read(context.Background())
+						if err != nil {
+							return
+						}
+						got[id] = append(got[id], r)
+					}
+				})
+			}, func(s string) (string, error) { return s, nil }, goat.WithClock(env.NewClock()))
+			var raw [][]byte
+			raw = append(raw, []byte{})
+			for x := 0; x < 256; x++ {
+				raw = append(raw, []byte{byte(x)})
+				for y := 0; y < 256; y++ {
+					raw = append(raw, []byte{byte(x), byte(y)})
+				}
+			}
+			vals := c19Values(false)
+			for _, base := range []*env.Rpc{vals[1], vals[len(vals)/2], vals[len(vals)-2], vals[7]} {
+				enc, _ := proto.Marshal(base)
+				if len(enc) > 200 {
+					enc = enc[:200]
+				}
+				for pos := 0; pos < len(enc); pos++ {
+					for _, sub := range []byte{0x00, 0xff, enc[pos] ^ 0x80, enc[pos] + 1} {
+						m := append([]byte{}, enc...)
+						m[pos] = sub
+						raw = append(raw, m)
+					}
+				}
+			}
+			bad := 0
+			for _, m := range raw {
+				var ref env.Rpc
+				refErr := proto.Unmarshal(m, &ref)
+				wantOK := refErr == nil && ref.Header != nil && ref.Header.Source != ""
+				before := 0
+				if wantOK {
+					before = len(got[ref.Header.Source])
+				}
+				code := post(goh, bytes.NewReader(m))
+				vsched.Quiesce()
+				switch {
+				case !wantOK && code != http.StatusBadRequest:
+					vsched.Fail(fam+"|bad-request-accepted", "body %x is not a well-formed envelope with header and source (decode error: %v) but was answered %d", m, refErr, code)
+					bad++
+				case wantOK && code != http.StatusOK:
+					vsched.Fail(fam+"|valid-rejected", "body %x decodes to an envelope with header and source but was answered %d", m, code)
+					bad++
+				case wantOK:
+					g := got[ref.Header.Source]
+					if len(g) != before+1 || !proto.Equal(g[len(g)-1], &ref) {
+						vsched.Fail(fam+"|altered-or-reordered", "body %x was accepted but delivered %d envelopes / a different envelope", m, len(g)-before)
+						bad++
+					}
+				}
+				if bad > 5 {
+					break
+				}
+			}
+			vsched.Count("inputs", int64(len(raw)))
+			vsched.Obs("http raw bodies=%d", len(raw))
 			goh.Cancel()
 			vsched.Quiesce()
 		},
